@@ -90,6 +90,22 @@ def _drop_orphan_lines(s):
     return out
 
 
+RETURNS = ["none", "one", "none", "zero", "defer", "text"]
+
+
+def with_returns(script, i):
+    """per-line callbacks return something in every other script (the value is the application's business)"""
+    if i % 2 == 0:
+        return script
+    out, n = [], i
+    for e in script:
+        if e["a"] == "Submit" and e.get("k") == "cb":
+            n += 1
+            e = dict(e, ret=RETURNS[n % len(RETURNS)])
+        out.append(e)
+    return out
+
+
 def strip(trace):
     return [dict((k, v) for k, v in e.items() if k != "obs") for e in trace["steps"]]
 
@@ -120,6 +136,7 @@ def run(pid, tier, seed):
     traces, meta = [], []
     seen = set()
     for i, (src, s) in enumerate(scripts):
+        s = with_returns(s, i)
         reps = 1 if tier == "quick" else 2
         for j in range(reps):
             seg = segs[(i + j * 3 + seed) % len(segs)]
